@@ -182,6 +182,7 @@ struct Res {
     vio: Option<(String, String)>,
     calls: u64,
     cross: u64,
+    mon: Vec<crate::vmc::Vio>,
 }
 
 fn run_case(case: &Case) -> Res {
@@ -302,6 +303,7 @@ fn run_case(case: &Case) -> Res {
         }
     }
     r.calls += 1;
+    let before = if crate::monitors::grid_monitors() { Some(ch.w.snapshot()) } else { None };
     let o = if !case.phase1 {
         let (hs, cs, pth) = (b.holder_script.clone(), b.cp_script.clone(), b.path.clone());
         let (th, tc) = (b.to_holder, b.to_cp);
@@ -369,6 +371,7 @@ fn run_case(case: &Case) -> Res {
         }
         out
     };
+    crate::monitors::around(&ch.w, &before, &o, if case.phase1 { "sign_mutual_close_tx" } else { "sign_mutual_close_tx_phase2" }, &mut r.mon);
     match o {
         Outcome::Ok(sig) => {
             r.accepted = true;
@@ -469,8 +472,10 @@ fn reference(case: &Case, v: &SetupV, vw: &Views, b: &Built, vals: (u64, u64, u6
         }
     };
     let upfront_script = b.upfront_script.clone();
-    let n_out = (b.to_holder > 0) as u64 + (b.to_cp > 0) as u64;
-    let weight = (4 * (10 + 41) + 4 * 31 * n_out + CLOSE_WITNESS_WEIGHT) as u128;
+    // weight of the closing transaction as it would be signed (an absent counterparty script
+    // becomes an empty script in the raw transaction)
+    let unsigned = closing_tx(lightning_signer::bitcoin::OutPoint::null(), b.to_holder, &b.holder_script, b.to_cp, &b.cp_script);
+    let weight = (unsigned.weight().to_wu() + CLOSE_WITNESS_WEIGHT) as u128;
     let ok = script_ok(b.script_kind, case.upfront, b.cleared, true);
     let explicit = ref_assignment(v, vw, b.to_holder, b.to_cp, &b.holder_script, ok, &upfront_script, weight, vals);
     if !case.phase1 {
@@ -525,9 +530,7 @@ fn alphabet(case: &Case) -> Vec<Dev> {
     v
 }
 
-pub fn main(tier: Tier) -> i32 {
-    let mut run = Run::new("C07", tier, "model_checking", "txgrid-c07");
-    let t0 = std::time::Instant::now();
+fn all_cases(tier: Tier) -> (Vec<Case>, Vec<Case>) {
     let e = EPS as i64;
     let states = vec![St::Initial, St::Equal, St::Skew(e - 1), St::Skew(e), St::Skew(e + 1), St::Skew(-e - 1), St::Skew(2 * e + 1), St::HtlcHolderOnly, St::HtlcCpOnly, St::HtlcBoth];
     let mut bases = vec![];
@@ -558,6 +561,35 @@ pub fn main(tier: Tier) -> i32 {
             cases.push(c);
         }
     }
+    (bases, cases)
+}
+
+/// the quick-tier cases with the C10 / C11 monitors around every request
+pub fn monitored(wall_s: f64) -> (u64, Vec<(crate::vmc::Vio, Value)>) {
+    let t0 = std::time::Instant::now();
+    let (_, cases) = all_cases(Tier::Quick);
+    let mut out = vec![];
+    let mut n = 0u64;
+    for chunk in cases.chunks(2048) {
+        if t0.elapsed().as_secs_f64() > wall_s {
+            break;
+        }
+        let rs = par_map(chunk, nthreads(), |c| run_case(c));
+        for (c, r) in chunk.iter().zip(rs.into_iter()) {
+            n += r.calls;
+            for v in r.mon {
+                out.push((v, json!({"engine": "c07", "case": c})));
+            }
+        }
+    }
+    (n, out)
+}
+
+pub fn main(tier: Tier) -> i32 {
+    let mut run = Run::new("C07", tier, "model_checking", "txgrid-c07");
+    let t0 = std::time::Instant::now();
+    let d = tier.pick(1, 2);
+    let (bases, cases) = all_cases(tier);
     let budget = tier.pick(45.0, 1500.0);
     let (mut evals, mut calls, mut acc, mut refu, mut panics, mut skipped, mut cross, mut base_acc) = (0u64, 0u64, 0u64, 0u64, 0u64, 0u64, 0u64, 0u64);
     let mut classes: BTreeSet<String> = BTreeSet::new();
